@@ -393,7 +393,9 @@ class XPathToken(Token[ta.XPathTokenType]):
         """
         type promotion checking (see "function conversion rules" in XPath 2.0 language definition)
         """
-        if isinstance(item, cls) or isinstance(item, XPathToken) and item.name == '(value)':
+        if isinstance(item, bool) and cls is int:
+            pass  # an xs:boolean is not an xs:integer (bool is a subclass of int)
+        elif isinstance(item, cls) or isinstance(item, XPathToken) and item.name == '(value)':
             return item
         elif promote and isinstance(item, promote):
             return cls(item)
@@ -409,7 +411,9 @@ class XPathToken(Token[ta.XPathTokenType]):
         else:
             value = self.data_value(item)
 
-            if isinstance(value, cls):
+            if isinstance(value, bool) and cls is int:
+                pass
+            elif isinstance(value, cls):
                 return value
             elif isinstance(value, AnyURI) and issubclass(cls, str):
                 return cls(value)
